@@ -910,10 +910,23 @@ def check_intconst(it, env):
     if it['how'] == 'mut':
         _note(env, it, True, ['mut:value differs by >= 2**32' if abs(it['md']['value'] - cval) >= 2 ** 32
                               else 'mut:value differs by < 2**32'])
-        _must_raise(env, it, n, [('lib.%s' % n, lambda: getattr(lib, n)),
-                                 ('ffi.integer_const', lambda: ffi.integer_const(n))])
+        uses = [('lib.%s' % n, lambda: getattr(lib, n)),
+                ('ffi.integer_const', lambda: ffi.integer_const(n))]
+        if 0 < cval < 2 ** 40:
+            # the constant used as an array length inside a type string (C parser path)
+            uses.append(('ffi.typeof("char[%s]")' % n, lambda: ffi.typeof('char[%s]' % n)))
+            uses.append(('ffi.sizeof("short[2][%s]")' % n, lambda: ffi.sizeof('short[2][%s]' % n)))
+        _must_raise(env, it, n, uses)
         return
     _note(env, it, (it['how'] == 'exact' and env['rich']) or it['how'] == 'flex')
+    if 0 < cval < 2 ** 40:
+        try:
+            alen = ffi.typeof('char[%s]' % n).length
+        except Exception as e:
+            ctx.fail('%s as an array length in a type string: %s: %s' % (n, type(e).__name__, e),
+                     cdef_line=it['cdef'], c_value=cval)
+        if alen != cval:
+            ctx.fail('ffi.typeof("char[%s]").length is %r, gcc says %d' % (n, alen, cval), cdef_line=it['cdef'])
     try:
         got, got2 = getattr(lib, n), ffi.integer_const(n)
     except Exception as e:
